@@ -682,8 +682,9 @@ def r01_4(ctx):
                   and (lambda v: v is not None and v[0] is not None and v[0][0] == "call" and v[0][1] in lens and v[1] == 0)(_sym(pe, ss["rv"]["op"]) if ss["rv"]["k"] == "use" else None)]
         if stores and sb not in pe.reachable_from(exceed, avoid=set(stores)) | ({exceed} - set(stores)):
             replaced = True
-    ctx.ob("R01.4", "Parser::error:clamp", ok and "compar" in why and replaced, pe.loc(),
-           "Parser::error replaces an error index beyond the input by len() before rendering" if ok and replaced else
+    clamped_by_min = ok and "min(index, len())" in why
+    ctx.ob("R01.4", "Parser::error:clamp", (ok and "compar" in why and replaced) or clamped_by_min, pe.loc(),
+           "Parser::error replaces an error index beyond the input by len() before rendering" if (ok and replaced) or clamped_by_min else
            "Parser::error compares the error index with the input length but hands the unclamped index to Error::syntax: building the error underflows / slices out of range when the padded reader stopped inside the padding")
 
 
@@ -1176,7 +1177,7 @@ def r01_4b(ctx):
         else:
             break
     defs = [(b, i, st) for b, i, st in f.assigns() if st["lhs"] == [E, []]]
-    ctx.floor("R01.4b", "assignments to the snippet end", len(defs), 2)
+    ctx.floor("R01.4b", "assignments to the snippet end", len(defs), 1)
     lens = {b for b, t in f.calls() if callee_is(t, "len")}
     k = 0
     for b, i, st in defs:
@@ -1194,7 +1195,18 @@ def r01_4b(ctx):
                 v = (y[0], x[1] + y[1])
         ok = False
         how = "the assigned value is not of the form base + constant"
-        if v is not None:
+        # x.min(len()) / min(x, len()) is bounded by construction
+        if rv["k"] == "use" and op_local(rv["op"]) is not None:
+            srcv = f.src(op_local(rv["op"]))
+            if srcv[0] == "call" and callee_is(srcv[2], "min") and len(srcv[2]["args"]) == 2:
+                for a2 in srcv[2]["args"]:
+                    l2 = op_local(a2)
+                    s2 = f.src(l2) if l2 is not None else ("multi",)
+                    if s2[0] == "call" and callee_is(s2[2], "len"):
+                        ok, how = True, "end = min(.., len())"
+        if ok:
+            pass
+        elif v is not None:
             if v[0] is not None and v[0][0] == "call" and v[0][1] in lens and v[1] == 0:
                 ok, how = True, "end = len()"
             else:
